@@ -222,6 +222,7 @@ c03_cases = [
 c04_cases = [
     case("n0=0 precertificate, one fault", "VerifC03", [0, 1, 1, 0, 1, 0], ["recovered", "resumed", "acknowledged"], Q),
     case("n0=0 two issuers, one fault", "VerifC03", [0, 1, 1, 0, 3, 0], ["recovered", "resumed", "acknowledged"], Q),
+    case("n0=0 two submissions with (possibly the same) issuer, one fault", "VerifC03", [0, 2, 1, 0, 2, 0], ["recovered", "resumed", "acknowledged"], Q),
     case("n0=255 pool 2 unparseable certificates, one fault", "VerifC03", [255, 2, 1, 0, 0, 1], ["recovered", "resumed", "acknowledged"], Q),
     case("n0=1 issuer, one crash", "VerifC03", [1, 1, 0, 1, 2, 0], ["recovered", "resumed"], Q),
     case("n0=254 pool 3 issuers, two faults", "VerifC03", [254, 3, 2, 0, 2, 1], ["recovered", "resumed"], T),
@@ -247,22 +248,25 @@ CHECKS["C04"] = {
 
 # ---------------------------------------------------------------- C02 / C07
 # VerifC02(n0, faults, actions, cacheLoss)
+# VerifC02(n0, faults, actions, cacheLoss, dups)
 c02_cases = [
-    case("n0=0 one interleaved action, no faults", "VerifC02", [0, 0, 1, 0], ["done", "ack after the round", "duplicate"], Q),
-    case("n0=0 one fault, polls after the round", "VerifC02", [0, 1, 0, 0], ["done", "fatal"], Q),
-    case("n0=255 one fault, polls after the round", "VerifC02", [255, 1, 0, 0], ["done"], Q),
-    case("n0=0 one fault, one interleaved action", "VerifC02", [0, 1, 1, 0], ["done", "fatal"], T),
-    case("n0=1 two interleaved actions", "VerifC02", [1, 0, 2, 0], ["done", "duplicate"], T),
-    case("n0=255 two faults, one action", "VerifC02", [255, 2, 1, 0], ["done"], T),
+    case("n0=0 one interleaved action, no faults", "VerifC02", [0, 0, 1, 0, 1], ["done", "ack after the round", "duplicate"], Q),
+    case("n0=0 one fault, polls after the round", "VerifC02", [0, 1, 0, 0, 0], ["done", "fatal"], Q),
+    case("n0=0 one fault, resubmission of equal entries after the round", "VerifC02", [0, 1, 0, 0, 1], ["done", "fatal"], Q),
+    case("n0=255 one fault, polls after the round", "VerifC02", [255, 1, 0, 0, 0], ["done"], Q),
+    case("n0=0 one fault, one interleaved action", "VerifC02", [0, 1, 1, 0, 0], ["done", "fatal"], T),
+    case("n0=0 one fault, one interleaved action, duplicates", "VerifC02", [0, 1, 1, 0, 1], ["done", "fatal"], T),
+    case("n0=1 two interleaved actions", "VerifC02", [1, 0, 2, 0, 1], ["done", "duplicate"], T),
+    case("n0=255 two faults, one action", "VerifC02", [255, 2, 1, 0, 0], ["done"], T),
 ]
 c07_cases = [
-    case("n0=0 duplicates at every yield point", "VerifC02", [0, 0, 1, 0], ["done", "duplicate"], Q),
-    case("n0=1 cache loss or rollback", "VerifC02", [1, 0, 1, 1], ["done", "duplicate"], Q),
-    case("n0=1 failed round then resubmission (cache rollback allowed)", "VerifC02", [1, 1, 0, 1], ["done", "fatal"], Q),
+    case("n0=0 duplicates at every yield point", "VerifC02", [0, 0, 1, 0, 1], ["done", "duplicate"], Q),
+    case("n0=1 cache loss or rollback", "VerifC02", [1, 0, 1, 1, 1], ["done", "duplicate"], Q),
+    case("n0=1 failed round then resubmission (cache rollback allowed)", "VerifC02", [1, 1, 0, 1, 1], ["done", "fatal"], Q),
     case("acknowledged indexes under eviction, pool size 1", "VerifC17Pool", [1, 3], ["sequenced", "eviction"], Q),
     case("acknowledged indexes under eviction, pool size 2", "VerifC17Pool", [2, 4], ["sequenced", "eviction"], Q),
-    case("n0=255 two actions with cache loss", "VerifC02", [255, 0, 2, 1], ["done"], T),
-    case("n0=2 one fault one action with cache loss", "VerifC02", [2, 1, 1, 1], ["done"], T),
+    case("n0=255 two actions with cache loss", "VerifC02", [255, 0, 2, 1, 1], ["done"], T),
+    case("n0=2 one fault one action with cache loss", "VerifC02", [2, 1, 1, 1, 1], ["done"], T),
 ]
 CHECKS["C02"] = {
     "level": "model_checking",
@@ -427,6 +431,20 @@ CHECKS["C05"] = {
     "assumptions": ["PARTIAL CLAIM: 'each method is exactly one conditional request that implements compare-and-swap under the service's documented semantics' — the services are models that interpret the requests: the SQL subset used by sqlite.go (BLOB equality, NULL never equal, NOT NULL, changes()), DynamoDB GetItem/PutItem with 'checkpoint = :old' / 'attribute_not_exists(logID)' and ConsistentRead (an inconsistent read may be stale), S3 GetObject/PutObject with If-Match on ETags (empty value = must not exist; NoSuchKey for a missing object)",
                     "atomicity, durability and cross-process behaviour of SQLite (C engine), DynamoDB and S3 themselves, synchronous=FULL, and how cgo binds BLOB/TEXT with NUL bytes are not Go source and are outside the claim",
                     "each request is atomic at the service, so interleavings of clients and processes are sequences of requests"],
+}
+
+# ---------------------------------------------------------------- C16
+c16_cases = [
+    case("log of 4 leaves", "VerifC16Subtree", [4], ["answered", "refused"], Q),
+    case("log of 8 leaves", "VerifC16Subtree", [8], ["answered", "refused"], T),
+]
+CHECKS["C16"] = {
+    "level": "model_checking",
+    "jobs": [dict(WITNESS, harness=WW + ["internal_witness/zz_verif_c14.go", "internal_witness/zz_verif_c16.go"], native=False, cases=c16_cases)],
+    "bounds": {"quick": "log of 4 leaves (forked at 1): every checkpoint size 1-4, start 0-4, end 0-5, nine combinations of signers on the checkpoint (none, witness ML-DSA, mirror ML-DSA, both, witness+Ed25519, foreign only, forged witness line only, mirror+forged, Ed25519 only), right / wrong / other-branch subtree hash, right / corrupted proof",
+               "thorough": "log of 8 leaves"},
+    "assumptions": [IDEAL_HASH, "ideal deterministic ML-DSA / Ed25519 signatures (opaque keys); log signatures: ideal MAC", "torchwood.ValidSubtree, CheckSubtree, SubtreeHash, ProveSubtree, the cosignature signer/verifier and note.Open/Sign are executed from their real source on concrete sizes",
+                    "(start, end) and sizes range over the small log (decimal parsing of 64-bit values is exercised on those); larger trees are outside the claim"],
 }
 
 # ---------------------------------------------------------------- manifest texts
